@@ -29,9 +29,12 @@ EXPLANATION = ("Theorems (Props/C07.lean, about the definitions drv_c07 runs; Ke
                "well-formed fractions, for EVERY flag setting (defaults included): reseed_invariant_full / reroot_at_node_invariant_full "
                "(internal target), to_outgroup_invariant (any non-seed outgroup), reroot_at_edge_invariant (any length1 + length2 = edge "
                "length), ladderize_invariant / reorder_invariant / rotate_invariant (path lengths under child permutation: Theory/C07Perm "
-               "distL_perm), reroot_at_midpoint_invariant_partial (in-edge branch complete; on-node branch assumes the returned node is "
-               "internal). Clause (c): reroot_at_edge_position (root = inserted node, children = head at length2, then tail at length1, any two "
-               "lengths). Clause (d): outgroup_first (suppress off). Clause (e): flag theorems for reseed, outgroup, reorient (content) and the "
+               "distL_perm), reorient_invariant (both branches + rotation), reroot_at_midpoint_invariant (both branches; the node the walk "
+               "returns is proved internal). pathLen_defined: the path length of two distinct leaves is a number, so the paths clause is "
+               "not none = none. LenWF and distinct ids are hypotheses (not derived from parseTree in this file). Clause (c): "
+               "reroot_at_edge_position_partial (suppress off only: root = inserted node, children = head at length2, then tail at length1, "
+               "any two lengths; the root-distance form under suppression is oracle-only). Clause (d): outgroup_first (suppress off, node identity) and outgroup_first_leafset_partial (both suppress settings, leaf-set form; "
+               "the outgroup child is identified in the re-seeded tree, not traced back to t). Clause (e): flag theorems for reseed, outgroup, reorient (content) and the "
                "hard ops (definitional). Structure: invert_is_chain, reseed_root_is_target, reseed_at_root_is_target, reseed_root_shape. "
                "Still _partial: midpoint_walk_spec_partial (walk stops exactly at half the distance, tail node on equality; equidistance of "
                "rerootAtMidpoint not assembled, maximality of the pair is an input); inversion_step_keeps_unrooted_splits_partial (one step; "
